@@ -59,7 +59,10 @@ def gen_items(rng, cls, kind, budget):
                 if rng.random() < 0.25:     # too short for its option
                     body = rng.choice((bytes((24,)), bytes((24, 0)), bytes((24, 1)) + b'xy', bytes((31,)), bytes((31, 5)), bytes((31, 1, 2, 3)), b'', bytes((34,)), bytes((34, 3))))
                 body = body.replace(b'\xff', b'\xfe')
-                if rng.random() < 0.2: body += bytes((IAC, IAC))
+                if rng.random() < 0.3:
+                    # a quoted IAC inside the data, and behind it bytes that would mean something if the decoder had lost its place
+                    # (SE without IAC, text): all of it still belongs to the sub-negotiation
+                    body += bytes((IAC, IAC)) + rng.choice((b'', b'', bytes((SE,)), bytes((SE,)) + b'leak', b'zz', bytes((SB,)), bytes((SE, 13, 10))))
                 items.append(('sb', bytes((IAC, SB)) + body + bytes((IAC, SE))))
         if cls == 'differential' and kind == 'telnet' and rng.random() < 0.5:
             items.append(('odd', rng.choice((b'\r', b'\n', b'\0', b'\xe9', bytes((IAC, IAC)), b'\rX', b'\t', b'\x1b[A'))))
